@@ -46,6 +46,8 @@ SeqSet(s) == {s[i] : i \in 1..Len(s)}
 Ids(S) == {e.id : e \in S}
 
 \* ---------------------------------------------------------------- confirmation rule (both paths)
+\* kind "transfer" = payload id 1 WHATEVER the payload length (the contract emits 101 + size(recipient) bytes for any
+\* recipient size); kind "other" includes the empty payload, which has no payload id at all
 Dur(e) == IF cfg.mainnet /\ e.kind = "transfer" THEN Max(e.cl, Floor) * BlockSecs ELSE e.cl * BlockSecs
 IsConfirmed(e, hd, h, now) == hd.height + e.cl <= h /\ hd.ts + Dur(e) <= now
 
@@ -158,9 +160,10 @@ F_Tok(id, ans) ==
     /\ UNCHANGED <<cfg, run, failed, pol, han, reo, reqQ, outs>>
 
 \* an attestation-shaped event that does not come from the token bridge, or whose payload names another token chain than
-\* Alephium (claim "badchain": it equals no answer of any contract), can never be forwarded: no call is required
+\* Alephium or that has not the length of an attestation (claims "badchain" / "badlen": they equal no answer of any
+\* contract), can never be forwarded: no call is required
 F_SkipForeign ==
-    /\ fet.q # <<>> /\ NeedsTok(Head(fet.q)) /\ (~Head(fet.q).tb \/ Head(fet.q).claim = "badchain")
+    /\ fet.q # <<>> /\ NeedsTok(Head(fet.q)) /\ (~Head(fet.q).tb \/ Head(fet.q).claim \in {"badchain", "badlen"})
     /\ LET g == Settle([fet EXCEPT !.q = Tail(fet.q)])
        IN fet' = g /\ aux' = AuxFet(fet, g, {})
     /\ UNCHANGED <<cfg, run, failed, pol, han, reo, reqQ, outs>>
